@@ -11,6 +11,9 @@ package main
 // read from standard input: "<i> <ms>" calls MeasureClockOffset of the i-th
 // clock (reference clocks first, then peers) with a context of <ms>
 // milliseconds and prints "verif-mp <i> <offset ns> <quoted error or ->".
+// The line "u" refreshes the Pather the clocks share at once (scion.VerifUpdate
+// = the refresh StartPather's goroutine runs every 15 s, with the destination
+// ASes of the SCION clocks in list order) and prints "verif-mp updated".
 // At end of input it exits without starting anything else.
 
 import (
@@ -22,8 +25,11 @@ import (
 	"strconv"
 	"time"
 
+	"github.com/scionproto/scion/pkg/addr"
+
 	"example.com/scion-time/core/timebase"
 	"example.com/scion-time/driver/clocks"
+	"example.com/scion-time/net/scion"
 )
 
 func init() {
@@ -38,9 +44,23 @@ func init() {
 	refClocks, peerClocks := createClocks(cfg, localAddr, log)
 	timebase.RegisterClock(clocks.NewSystemClock(log, clockDrift(cfg)))
 	clks := append(refClocks, peerClocks...)
+	var pather *scion.Pather
+	var dstIAs []addr.IA
+	for _, c := range clks {
+		if sc, ok := c.(*ntpReferenceClockSCION); ok {
+			pather = sc.pather
+			dstIAs = append(dstIAs, sc.remoteAddr.IA)
+		}
+	}
 	fmt.Printf("verif-mp ready %d\n", len(clks))
 	in := bufio.NewScanner(os.Stdin)
 	for in.Scan() {
+		if in.Text() == "u" && pather != nil {
+			ctx := context.Background()
+			scion.VerifUpdate(ctx, pather, scion.NewDaemonConnector(ctx, cfg.SCIONDaemonAddr), dstIAs)
+			fmt.Println("verif-mp updated")
+			continue
+		}
 		var i, ms int
 		if n, _ := fmt.Sscan(in.Text(), &i, &ms); n != 2 || i < 0 || i >= len(clks) {
 			fmt.Println("verif-mp bad request")
